@@ -119,7 +119,7 @@ func isASCIIPredicate(f *ssa.Function) bool {
 			}
 		}
 	}
-	if !sawCmp || !visitsEveryOctetOnce(f) {
+	if !sawCmp || !(visitsEveryOctetOnce(f) || rangesOverEveryRune(f)) {
 		return false
 	}
 	// every 'return true' is outside the loop body's taken edge: accept when exactly one return true exists
@@ -218,6 +218,13 @@ func (e *echoCtx) safe(fn *ssa.Function, v ssa.Value, depth int) (bool, string) 
 	case *ssa.Extract:
 		if call, ok := x.Tuple.(*ssa.Call); ok {
 			return e.safeCallResult(fn, call, x.Index, depth-1)
+		}
+		if lk, ok := x.Tuple.(*ssa.Lookup); ok && lk.CommaOk && x.Index == 0 {
+			return e.tableValuesSafe(lk, depth-1)
+		}
+	case *ssa.Lookup:
+		if !x.CommaOk {
+			return e.tableValuesSafe(x, depth-1)
 		}
 	case *ssa.Call:
 		return e.safeCallResult(fn, x, 0, depth-1)
@@ -590,4 +597,151 @@ func ruleASCIIPredicates(p *Program, r *Result) {
 	if n == 0 {
 		r.undecided("R-ASCII", "predicates", "-", "no func(string) bool used by a Validate method was found")
 	}
+}
+
+// rangesOverEveryRune: the predicate is 'for _, r := range s { if r > 127 ... }': the one loop of the function is a
+// range over its string argument, the argument is used for nothing else, and what is compared with 127 is the rune
+// of the iteration. Every octet above 127 is part of a rune above 127 (or of an invalid sequence, which yields
+// U+FFFD), and every octet up to 127 is a rune of its own, so the test is the same as the octet-wise one.
+func rangesOverEveryRune(f *ssa.Function) bool {
+	if len(f.Params) != 1 {
+		return false
+	}
+	s := f.Params[0]
+	var rg *ssa.Range
+	for _, rf := range refsOf(s) {
+		switch x := rf.(type) {
+		case *ssa.Range:
+			if rg != nil {
+				return false
+			}
+			rg = x
+		case *ssa.DebugRef:
+		default:
+			return false
+		}
+	}
+	if rg == nil {
+		return false
+	}
+	var next *ssa.Next
+	for _, rf := range refsOf(rg) {
+		if n, ok := rf.(*ssa.Next); ok && n.IsString && next == nil {
+			next = n
+		} else if _, dbg := rf.(*ssa.DebugRef); !dbg {
+			return false
+		}
+	}
+	if next == nil {
+		return false
+	}
+	// no loop other than the one through the Next
+	for _, b := range f.Blocks {
+		if blockReachFromSelf(b) && !(b == next.Block() || blockReach(next.Block(), nil)[b] && blockReach(b, nil)[next.Block()]) {
+			return false
+		}
+	}
+	// every comparison with 127 is of the iteration's rune
+	n := 0
+	for _, b := range f.Blocks {
+		for _, in := range b.Instrs {
+			bo, ok := in.(*ssa.BinOp)
+			if !ok {
+				continue
+			}
+			if c, okc := constInt(bo.Y); !okc || c != 127 {
+				continue
+			}
+			ex, ok := stripAllConv(bo.X).(*ssa.Extract)
+			if !ok || ex.Tuple != ssa.Value(next) || ex.Index != 2 || bo.Op != token.GTR {
+				return false
+			}
+			n++
+		}
+	}
+	return n == 1
+}
+
+// tableValuesSafe: the text looked up comes from a package-level map that is filled once, in the package
+// initialiser, with ASCII-only values, and that nothing else writes.
+func (e *echoCtx) tableValuesSafe(lk *ssa.Lookup, depth int) (bool, string) {
+	if _, isMap := lk.X.Type().Underlying().(*types.Map); !isMap {
+		return false, "indexing of a string"
+	}
+	u, ok := lk.X.(*ssa.UnOp)
+	if !ok || u.Op != token.MUL {
+		return false, "lookup in a map that is not a package-level table"
+	}
+	g, ok := u.X.(*ssa.Global)
+	if !ok || g.Pkg == nil {
+		return false, "lookup in a map that is not a package-level table"
+	}
+	init := g.Pkg.Func("init")
+	if init == nil {
+		return false, "table without initialiser"
+	}
+	// the global is stored once, in init, and its other uses are loads
+	var made ssa.Value
+	for i, f := range append([]*ssa.Function{init}, e.p.Funcs...) {
+		if f.Pkg != g.Pkg || (i > 0 && f == init) {
+			continue
+		}
+		for _, b := range f.Blocks {
+			for _, in := range b.Instrs {
+				st, ok := in.(*ssa.Store)
+				if !ok || st.Addr != ssa.Value(g) {
+					continue
+				}
+				if f != init || made != nil {
+					return false, "table " + g.Name() + " is assigned more than once"
+				}
+				made = st.Val
+			}
+		}
+	}
+	if made == nil {
+		return false, "table " + g.Name() + " is never initialised"
+	}
+	n := 0
+	for _, rf := range refsOf(made) {
+		switch x := rf.(type) {
+		case *ssa.MapUpdate:
+			if x.Map != made {
+				return false, "table used as a key or value"
+			}
+			n++
+			if ok, why := e.safe(init, x.Value, depth); !ok {
+				return false, "value of table " + g.Name() + ": " + why
+			}
+		case *ssa.Store, *ssa.DebugRef:
+		default:
+			return false, "table " + g.Name() + " escapes its initialiser"
+		}
+	}
+	// nobody else updates it: every load of the global is used for lookups, len or range only
+	for _, f := range e.p.Funcs {
+		if f.Pkg != g.Pkg {
+			continue
+		}
+		for _, b := range f.Blocks {
+			for _, in := range b.Instrs {
+				ld, ok := in.(*ssa.UnOp)
+				if !ok || ld.Op != token.MUL || ld.X != ssa.Value(g) {
+					continue
+				}
+				for _, rf := range refsOf(ld) {
+					switch y := rf.(type) {
+					case *ssa.Lookup, *ssa.Range, *ssa.DebugRef:
+					case *ssa.Call:
+						if bi, ok := y.Common().Value.(*ssa.Builtin); !ok || bi.Name() != "len" {
+							return false, "table " + g.Name() + " is handed to a function"
+						}
+					default:
+						return false, "table " + g.Name() + " is written or handed on after its initialisation"
+					}
+				}
+			}
+		}
+	}
+	return true, fmt.Sprintf("value of the package-level table %s (%d ASCII-only entries, written only by the initialiser)", g.Name(), n)
 }
